@@ -250,6 +250,8 @@ class WritableVersion(dns.zone.WritableVersion):
         cursor = self.nodes.cursor()  # pyright: ignore
         cursor.seek(name, False)
         updates = []
+        # When exposing a subtree, the delegation point we are beneath, if any.
+        inner_cut: dns.name.Name | None = None
         while True:
             elt = cursor.next()
             if elt is None:
@@ -262,13 +264,27 @@ class WritableVersion(dns.zone.WritableVersion):
                 new_node = self.zone.node_factory()
                 new_node.id = self.id  # type: ignore
                 new_node.rdatasets.extend(node.rdatasets)
+                new_node.flags = node.flags  # type: ignore
                 self.changed.add(ename)
                 node = new_node
             assert isinstance(node, Node)
             if is_glue:
-                node.flags |= NodeFlags.GLUE
+                # Everything beneath a delegation point is glue and nothing
+                # else, so a delegation point that is now beneath *name* is
+                # demoted.
+                if node.is_delegation():
+                    self.delegations.discard(ename)
+                node.flags = NodeFlags.GLUE
+            elif inner_cut is not None and ename.is_subdomain(inner_cut):
+                node.flags = NodeFlags.GLUE
+            elif node.get_rdataset(self.zone.rdclass, dns.rdatatype.NS) is not None:
+                # An NS owner which was occluded by *name* becomes a
+                # delegation point itself, and keeps occluding its subtree.
+                inner_cut = ename
+                self.delegations.add(ename)
+                node.flags = NodeFlags.DELEGATION
             else:
-                node.flags &= ~NodeFlags.GLUE
+                node.flags = NodeFlags(0)
             # We don't update node here as any insertion could disturb the
             # btree and invalidate our cursor.  We could use the cursor in a
             # with block and avoid this, but it would do a lot of parking and
